@@ -51,7 +51,7 @@ for m in metas:
 rounds = sorted(set(m.get("round", 1) for m in metas))
 out.append("""
 %d changes from %d rounds of sub-agents (round 1: two per property; round 2: three per property, asked to spread over
-different functions; round 3 and 4: three each for eight and for the other twelve properties, asked to prefer shared infrastructure; round 5: one each for C07, C08, C11, C13, C14, C15, C17, C19, C20; a tenth, for C10, was an exact duplicate of a round-1 change and is not kept; eight caught by the unchanged check of their property, the C11 change - rule verdicts lost when `YR_CONFIG_MAX_MATCH_DATA` is 0 - was missed by C11, whose rule sets never varied that setting, and caught by C01; C11 now varies it in 30% of its cases and catches the change itself); %d are detected by
+different functions; round 3 and 4: three each for eight and for the other twelve properties, asked to prefer shared infrastructure; round 5: one each for C07, C08, C11, C13, C14, C15, C17, C19, C20; a tenth, for C10, was an exact duplicate of a round-1 change and is not kept; eight caught by the unchanged check of their property, the C11 change - rule verdicts lost when `YR_CONFIG_MAX_MATCH_DATA` is 0 - was missed by C11, whose rule sets never varied that setting, and caught by C01; C11 now varies it in 30%% of its cases and catches the change itself); %d are detected by
 the quick tier of the check named in the table.  Round 1 is applied to `/repo` itself (`tools/try_mutation.sh`), later
 rounds to a scratch worktree at `/repo`'s HEAD that the check is pointed at with `VERIF_REPO` (`tools/try_mutation2.sh`:
 evidence, replays and build output of a trial stay in the scratch tree).  %d of them were missed (or caught only
